@@ -26,3 +26,105 @@ package labels
 //@   requires -1048576 < x && x < 1048576 && -1048576 < y && y < 1048576 && -1048576 < z && z < 1048576
 //@   requires -1048576 < x2 && x2 < 1048576 && -1048576 < y2 && y2 < 1048576 && -1048576 < z2 && z2 < 1048576
 //@   ensures a == b ==> x == x2 && y == y2 && z == z2
+
+// ---- bit layer of the compressed block codec (C09) ----
+
+// bitsFor(n): number of bits needed to index n values: 0 for n < 2, else the least k with 2^k >= n.
+//@ func bitsFor
+//@   prop C09
+//@   invariant loop 1: old_n >= 2 && bits <= 16 && n == (old_n - 1) >> bits && (bits == 0 || ((old_n - 1) >> (bits - 1)) != 0)
+//@   ensures n < 2 ==> bits == 0
+//@   ensures n >= 2 ==> bits >= 1 && bits <= 16 && uint32(n) <= (uint32(1) << bits) && uint32(n) > (uint32(1) << (bits - 1))
+
+// getPackedValue(b, bitHead, bits): the `bits`-bit big-endian field at bit offset bitHead.
+//@ func getPackedValue
+//@   prop C09 C20
+//@   requires bits >= 1 && bits <= 9 && bitHead <= 0x3FFFFFFF
+//@   requires int((bitHead + bits + 7) >> 3) <= len(b)
+//@   ensures uint32(index) == (ite((bitHead & 7) + bits <= 8, uint32(b[int(bitHead >> 3)]) >> (8 - (bitHead & 7) - bits), ((uint32(b[int(bitHead >> 3)]) << 8) | uint32(b[int(bitHead >> 3) + 1])) >> (16 - (bitHead & 7) - bits))) & ((uint32(1) << bits) - 1)
+
+// ---- solid-block shortcut of down-sampling (C10) ----
+
+//@ func MakeSolidBlock
+//@   prop C10 C09
+//@   ensures result != nil && fresh(result) && len(result.Labels) == 1 && result.Labels[0] == label && result.Size[0] == blockSize[0] && result.Size[1] == blockSize[1] && result.Size[2] == blockSize[2]
+//@   ensures len(result.SBIndices) == 0 && len(result.SBValues) == 0 && len(result.NumSBLabels) == 0
+
+// setBlank returns true only if all eight octants are the same solid label (an absent octant is
+// solid label 0), and then makes the receiver that solid label.
+//@ spec func octSolid(o *Block, l uint64) bool = (o == nil && l == 0) || (o != nil && len(o.Labels) == 1 && o.Labels[0] == l)
+//@ func Block.setBlank
+//@   prop C10
+//@   requires b != nil
+//@   modifies b.*
+//@   invariant loop 1: 1 <= i && i <= 8 && (ok ==> (forall j int :: 0 <= j && j < i ==> octSolid(octants[j], lbl)))
+//@   ensures result ==> (forall j int :: 0 <= j && j < 8 ==> octSolid(octants[j], b.Labels[0])) && len(b.Labels) == 1
+
+// ---- label-table edits on compressed blocks (C10): voxel-wise meaning through the table ----
+// A voxel's label is Labels[SBIndices[k]] for the k its packed value selects; SBValues and
+// NumSBLabels are not touched by these operations, so the per-voxel statement reduces to a
+// statement about every SBIndices position k.
+// Trusted (unsafe code): after copying b.data and setExportedVars, the new block's Labels and
+// SBIndices are fresh views with the same contents as b's.
+
+// setExportedVars re-derives Labels/NumSBLabels/SBIndices/SBValues as unsafe views of b.data
+// (trusted here for its frame only: it changes nothing but the receiver's fields; its panic
+// freedom on malformed data is the C20 obligation, checked separately).
+//@ func Block.setExportedVars
+//@   trusted
+//@   modifies b.*
+
+//@ func Block.MergeLabels
+//@   prop C10
+//@   safety_off
+//@   requires b != nil && !has(op.Merged, op.Target) && len(b.Labels) < 1000000000
+//@   requires forall k int :: {b.SBIndices[k]} 0 <= k && k < len(b.SBIndices) ==> int(b.SBIndices[k]) < len(b.Labels)
+//@   modifies *
+//@   ghost w uint32 = 0
+//@   assume at "var targetFound bool": merged != nil && len(merged.Labels) == len(b.Labels) && len(merged.SBIndices) == len(b.SBIndices) && merged.Labels.arr != b.Labels.arr && merged.SBIndices.arr != b.SBIndices.arr && merged != b
+//@   assume at "var targetFound bool": (forall j int :: {merged.Labels[j]} 0 <= j && j < len(b.Labels) ==> merged.Labels[j] == b.Labels[j]) && (forall k int :: {merged.SBIndices[k]} 0 <= k && k < len(b.SBIndices) ==> merged.SBIndices[k] == b.SBIndices[k])
+//@   ghostset at "mergedIndices[uint32(i)] = struct{}{}": w = uint32(i)
+//@   invariant loop 1: merged != nil && merged != b && len(merged.Labels) == len(b.Labels) && len(merged.SBIndices) == len(b.SBIndices) && merged.Labels.arr != b.Labels.arr && merged.SBIndices.arr != b.SBIndices.arr
+//@   invariant loop 1: forall j int :: {b.Labels[j]} 0 <= j && j <= rangeindex ==> (has(mergedIndices, uint32(j)) == has(op.Merged, b.Labels[j]))
+//@   invariant loop 1: forall u uint32 :: has(mergedIndices, u) ==> int(u) <= rangeindex
+//@   invariant loop 1: forall j int :: {merged.Labels[j]} 0 <= j && j < len(b.Labels) ==> merged.Labels[j] == ite(j <= rangeindex && has(op.Merged, b.Labels[j]), 0, b.Labels[j])
+//@   invariant loop 1: (targetFound ==> int(targetIndex) <= rangeindex && b.Labels[int(targetIndex)] == op.Target) && (!targetFound ==> (forall j int :: {b.Labels[j]} 0 <= j && j <= rangeindex ==> b.Labels[j] != op.Target))
+//@   invariant loop 1: int(numMerged) <= rangeindex + 1 && (numMerged == 0 ==> (forall u uint32 :: !has(mergedIndices, u))) && (numMerged != 0 ==> has(mergedIndices, w))
+//@   assert at "if numMerged == 0 {": forall j int :: {b.Labels[j]} 0 <= j && j < len(b.Labels) ==> (has(mergedIndices, uint32(j)) == has(op.Merged, b.Labels[j]))
+//@   assert at "if numMerged == 0 {": numMerged == 0 ==> (forall j int :: {merged.Labels[j]} 0 <= j && j < len(b.Labels) ==> merged.Labels[j] == b.Labels[j])
+//@   invariant loop 1: forall k int :: {merged.SBIndices[k]} 0 <= k && k < len(b.SBIndices) ==> merged.SBIndices[k] == b.SBIndices[k]
+//@   assert at "for i, index := range merged.SBIndices {": int(targetIndex) < len(b.Labels) && merged.Labels[int(targetIndex)] == op.Target && (has(mergedIndices, targetIndex) || b.Labels[int(targetIndex)] == op.Target)
+//@   assert at "for i, index := range merged.SBIndices {": forall j int :: {merged.Labels[j]} 0 <= j && j < len(b.Labels) && j != int(targetIndex) ==> merged.Labels[j] == ite(has(op.Merged, b.Labels[j]), 0, b.Labels[j])
+//@   invariant loop 2: merged != nil && len(merged.SBIndices) == len(b.SBIndices) && merged.SBIndices.arr != b.SBIndices.arr && (forall k int :: {b.SBIndices[k]} 0 <= k && k < len(b.SBIndices) ==> int(b.SBIndices[k]) < len(b.Labels))
+//@   invariant loop 2: forall k int :: {merged.SBIndices[k]} 0 <= k && k < len(b.SBIndices) ==> merged.SBIndices[k] == ite(k <= rangeindex && has(mergedIndices, b.SBIndices[k]), targetIndex, b.SBIndices[k])
+//@   ensures err == nil && merged != nil ==> len(merged.SBIndices) == len(b.SBIndices)
+//@   ensures err == nil && merged != nil ==> (forall k int :: {b.SBIndices[k]} 0 <= k && k < len(b.SBIndices) ==> merged.SBIndices[k] == b.SBIndices[k] || has(op.Merged, b.Labels[int(b.SBIndices[k])]))
+//@   ensures err == nil && merged != nil ==> (forall k int :: {b.SBIndices[k]} 0 <= k && k < len(b.SBIndices) ==> merged.Labels[int(merged.SBIndices[k])] == ite(has(op.Merged, b.Labels[int(b.SBIndices[k])]), op.Target, b.Labels[int(b.SBIndices[k])]))
+
+//@ func Block.ReplaceLabels
+//@   prop C10
+//@   safety_off
+//@   requires b != nil
+//@   modifies *
+//@   assume at "for i, label := range replace.Labels {": replace != nil && replace != b && len(replace.Labels) == len(b.Labels) && len(replace.SBIndices) == len(b.SBIndices) && replace.Labels.arr != b.Labels.arr
+//@   assume at "for i, label := range replace.Labels {": (forall j int :: {replace.Labels[j]} 0 <= j && j < len(b.Labels) ==> replace.Labels[j] == b.Labels[j]) && (forall k int :: {replace.SBIndices[k]} 0 <= k && k < len(b.SBIndices) ==> replace.SBIndices[k] == b.SBIndices[k])
+//@   invariant loop 1: replace != nil && replace != b && len(replace.Labels) == len(b.Labels) && replace.Labels.arr != b.Labels.arr
+//@   invariant loop 1: forall j int :: {replace.Labels[j]} 0 <= j && j < len(b.Labels) ==> replace.Labels[j] == ite(j <= rangeindex && has(mapping, b.Labels[j]), mapping[b.Labels[j]], b.Labels[j])
+//@   invariant loop 1: replaced == (exists j int :: 0 <= j && j <= rangeindex && has(mapping, b.Labels[j]))
+//@   ensures err == nil && replace != nil ==> len(replace.Labels) == len(b.Labels) && (forall j int :: {replace.Labels[j]} 0 <= j && j < len(b.Labels) ==> replace.Labels[j] == ite(has(mapping, b.Labels[j]), mapping[b.Labels[j]], b.Labels[j]))
+//@   ensures err == nil && replace != nil ==> (forall k int :: {replace.SBIndices[k]} 0 <= k && k < len(b.SBIndices) ==> replace.SBIndices[k] == b.SBIndices[k])
+
+//@ func Block.ReplaceLabel
+//@   prop C10
+//@   safety_off
+//@   requires b != nil
+//@   modifies *
+//@   assume at "for i, label := range replace.Labels {": replace != nil && replace != b && len(replace.Labels) == len(b.Labels) && len(replace.SBIndices) == len(b.SBIndices) && replace.Labels.arr != b.Labels.arr
+//@   assume at "for i, label := range replace.Labels {": (forall j int :: {replace.Labels[j]} 0 <= j && j < len(b.Labels) ==> replace.Labels[j] == b.Labels[j]) && (forall k int :: {replace.SBIndices[k]} 0 <= k && k < len(b.SBIndices) ==> replace.SBIndices[k] == b.SBIndices[k])
+//@   invariant loop 1: replace != nil && replace != b && len(replace.Labels) == len(b.Labels) && replace.Labels.arr != b.Labels.arr
+//@   invariant loop 1: forall j int :: {replace.Labels[j]} 0 <= j && j < len(b.Labels) ==> replace.Labels[j] == ite(j <= rangeindex && b.Labels[j] == target, newLabel, b.Labels[j])
+//@   ensures err == nil && replace != nil ==> len(replace.Labels) == len(b.Labels) && (forall j int :: {replace.Labels[j]} 0 <= j && j < len(b.Labels) ==> replace.Labels[j] == ite(b.Labels[j] == target, newLabel, b.Labels[j]))
+
+// getNumVoxels only reads the block (frame trusted; its count is not under contract yet).
+//@ func Block.getNumVoxels
+//@   trusted
